@@ -20,7 +20,9 @@ import Asn1Verif.Gen.Consts
   and runs `AsnDefWriter`, which decides the order of the `read_value`/`write_value` calls (= wire
   order and presence-bit order) and the `TAG` constants.
 
-  Defects are mirrored as they are.
+  Defects are mirrored as they are.  Repaired since the mirror was first written: the resolver's
+  cycle detection, the SET sort (extension additions keep their textual order), the `TAG`
+  constants of an untagged SET type, SET OF component and DEFAULT component.
 -/
 namespace Asn1Verif.Codegen.Tags
 open Asn1Verif
@@ -305,9 +307,17 @@ def assignImplicitTags (fields : List RField) : List RField :=
   if fields.any (fun f => f.tag.isSome) then fields
   else fields.zipIdx.map fun (f, i) => { f with tag := some (Tag.contextSpecific i) }
 
-/-- sort key `(a.0, &a.1.tag).cmp(&(b.0, &b.1.tag))`: tuple order, `false < true` first -/
+/-- the comparator of the sort, as "`cmp` does not answer `Greater`":
+    `match (a.0, b.0) { (false, false) => a.1.tag.cmp(&b.1.tag), (a_ext, b_ext) => a_ext.cmp(&b_ext) }`
+    — two root components compare by tag, a root component is less than an extension addition
+    (`false < true`), two extension additions compare `Equal` (repaired code; before, the key was
+    the tuple `(extended, tag)`, so the additions were sorted by tag among themselves) -/
 def keyLe (a b : Bool × RField) : Bool :=
-  (!a.1 && b.1) || (a.1 == b.1 && optTagLe a.2.tag b.2.tag)
+  match a.1, b.1 with
+  | false, false => optTagLe a.2.tag b.2.tag
+  | false, true => true
+  | true, false => false
+  | true, true => true
 
 /-- the `.map(..)` before the sort: `field.tag = field.tag.or_else(|| field.r#type().tag())`,
     paired with the extended flag of the textual index -/
@@ -317,7 +327,10 @@ def prepare (fields : List RField) (extAfter : Option Nat) : List (Bool × RFiel
 
 /-- the sorted list of `(extended, field)` pairs.  `Vec::sort_by` is a stable sort; the model uses
     core's `List.mergeSort`, which is stable as well (`List.sublist_mergeSort`); for a total
-    preorder every stable sort produces the same list. -/
+    preorder every stable sort produces the same list.  Stability is what keeps the extension
+    additions (all `Equal` to each other) in the order of their definition
+    (`TagsLemmas.sortKeyed_eq`: the result is "the root components sorted" ++ "the additions as
+    written"). -/
 def sortKeyed (fields : List RField) (extAfter : Option Nat) : List (Bool × RField) :=
   (prepare fields extAfter).mergeSort keyLe
 
@@ -341,24 +354,32 @@ def emitOrder (o : EncodingOrdering) (fields : List RField) (extAfter : Option N
   | .keep => .ok fields
   | .sort => sortFieldsCanonically fields extAfter
 
-/-- the default `write_field_constraint` falls back to for a plain type; `Vec(_, _, ordering)`
-    uses `DEFAULT_SEQUENCE_OF` for SET OF too -/
-def constDefaultTag : Builtin → Tag
-  | .setOf => .ofPair Consts.TAG_DEFAULT_SEQUENCE_OF
-  | k => defaultTag k
+/-- `RustType::tag()` of the component's type with `Option`/`Default` stripped: the
+    `Tag::DEFAULT_*` of a plain type, the tag stage 1 printed for a `Complex` -/
+def RField.innerTag (f : RField) : Option Tag :=
+  match f.kind with
+  | .builtin k => some (defaultTag k)
+  | .complex => f.typeTag
 
 /-- the `TAG` constant `write_field_constraint` writes for the component's own constraint type:
-    * `RustType::Default(..)`: `field.tag.unwrap_or(Tag::DEFAULT_SEQUENCE_OF)` (the inner type's
-      tag goes to a second, virtual constraint type `…Value`),
+    * `RustType::Default(inner, _)`: `field.tag.or_else(|| inner.tag())`, else panic "Default type ..
+      requires a tag" (repaired code; before: `field.tag.unwrap_or(Tag::DEFAULT_SEQUENCE_OF)`
+      whatever the type; the inner type's constraint goes to a second, virtual constraint type
+      `…Value`),
     * `RustType::Option(inner)`: the arm of `inner` with the same `field.tag`,
-    * plain types: `field.tag.unwrap_or(DEFAULT_…)`,
+    * plain types: `field.tag.unwrap_or(DEFAULT_…)` — for `Vec(_, _, ordering)` the default follows
+      the ordering: `DEFAULT_SEQUENCE_OF` / `DEFAULT_SET_OF` (repaired code; before:
+      `DEFAULT_SEQUENCE_OF` for SET OF too),
     * `Complex(_, tag)`: `field.tag.or(*tag)`, else panic "Complex type .. requires a tag". -/
 def tagConst (f : RField) : Outcome Tag :=
   match f.presence with
-  | .default => .ok (f.tag.getD (.ofPair Consts.TAG_DEFAULT_SEQUENCE_OF))
+  | .default =>
+    match f.tag.orElse fun _ => f.innerTag with
+    | some t => .ok t
+    | none => .panic
   | _ =>
     match f.kind with
-    | .builtin k => .ok (f.tag.getD (constDefaultTag k))
+    | .builtin k => .ok (f.tag.getD (defaultTag k))
     | .complex =>
       match f.tag.orElse fun _ => f.typeTag with
       | some t => .ok t
@@ -384,16 +405,24 @@ structure Emitted where
   ownTag : Tag
   deriving DecidableEq, Repr
 
+/-- `tag.unwrap_or(match ordering { Keep => Tag::DEFAULT_SEQUENCE, Sort => Tag::DEFAULT_SET })`
+    for a type without a tag of its own (the test type carries none); repaired code, before:
+    `Tag::DEFAULT_SEQUENCE` for both orderings -/
+def ownDefaultTag : EncodingOrdering → Tag
+  | .keep => .ofPair Consts.TAG_DEFAULT_SEQUENCE
+  | .sort => .ofPair Consts.TAG_DEFAULT_SET
+
 /-- `write_constraints` for `Rust::Struct`: implicit tags, the per-component constraint types in
-    textual order, then the SEQUENCE/SET constraint.  The type's own `TAG` is
-    `tag.unwrap_or(Tag::DEFAULT_SEQUENCE)` for SET as well (the test type carries no tag). -/
+    textual order, then the SEQUENCE/SET constraint (`EXTENDED_AFTER_FIELD` is the
+    `extension_after` index it was handed, untouched by the sort: the root components stay in
+    front). -/
 def writeConstraints (o : EncodingOrdering) (fields : List RField) (extAfter : Option Nat) :
     Outcome Emitted := do
   let fields := assignImplicitTags fields
   let consts ← tagConsts fields
   let ordered ← emitOrder o fields extAfter
   pure { order := ordered.map (·.name), tags := consts, extAfter := extAfter,
-         ownTag := .ofPair Consts.TAG_DEFAULT_SEQUENCE }
+         ownTag := ownDefaultTag o }
 
 /-! ### the whole pipeline -/
 
